@@ -799,6 +799,23 @@ def overlap_key_rule(ctx, d7):
     sv = defs.get(seq)
     idx_param = f.params[2]
     ordered = sv is not None and ('in %s' % idx_param) in src(sv)
+    # the memo must live on the object whose name table the cached positions come from: positions looked up in A's table and
+    # remembered in B's memo are handed to every later (X, B) pair
+    owners = {src(defs[c].value) for c in caches if isinstance(defs[c], ast.Attribute)}
+    tables = set()
+    for lp in [n for n in walk_no_nested(f.node) if isinstance(n, ast.For)]:
+        for x in ast.walk(lp):
+            if isinstance(x, ast.Subscript) and isinstance(x.ctx, ast.Load) and isinstance(x.value, ast.Name) and x.value.id in defs \
+                    and isinstance(defs[x.value.id], ast.Attribute) and src(defs[x.value.id]).endswith('._index'):
+                tables.add(src(defs[x.value.id].value))
+    if len(owners) == 1 and len(tables) == 1:
+        if owners == tables:
+            d7.ok('index_overlap', 'the memo is kept on %s, the object whose name table the cached positions are looked up in' % owners.pop(), f)
+        else:
+            d7.fail('index_overlap', 'memo-owner', 'the cached positions are looked up in the name table of %s but remembered in the memo of %s: the key does not '
+                    'identify the package the positions belong to, so a later pair with another target package receives them' % (tables.pop(), owners.pop()), f, f.node)
+    else:
+        d7.fail('index_overlap', 'memo-owner', 'memo owner %s / looked-up table %s not recognised' % (sorted(owners), sorted(tables)), f, f.node)
     if order_preserving(key) and ordered:
         d7.ok('index_overlap', 'memo key is an order-preserving encoding of the CAS sequence the cached left index is computed from', f)
     else:
